@@ -17,6 +17,16 @@ CHECKS = {
         note='Trusted: z3 FP decision procedure; the numpy model (conformance-checked against the real numpy; every '
              'reachability witness is replayed bitwise on the real code). Grids outside the family are outside the claim.',
         ref='DESIGN.md 4/C02'),
+    'C15': dict(
+        text='Bounded symbolic model checking over every integer millisecond / microsecond instant of 1900..2200: the real '
+             'time_utils functions run on symbolic instants through a step-by-step model of CPython datetime. The '
+             'datetime->epoch leg is decided exactly (Int; bit-exact QF_BVFP when the code uses floats), epoch->datetime '
+             'and the decimal-year claims under a sound per-binade rounding envelope over LIRA (unsat = proof for IEEE '
+             'doubles; sat = candidate, counted only if it replays on the real code).',
+        note='Trusted: z3; the datetime model (conformance-tested against the real datetime on boundary and seeded '
+             'instants at every run); the envelope abstraction (sound over-approximation of round-to-nearest in the '
+             'stated binades). Time strings are placeholders with real syntax: byte-level formatting is outside.',
+        ref='DESIGN.md 4/C15'),
 }
 
 PENDING_REASON = 'check not built yet in this session (design in DESIGN.md section 4; will be claimed when its harness lands)'
